@@ -314,12 +314,10 @@ class ArithmeticPulseTemplate(PulseTemplate):
         Returns:
             The evaluation of the scalar operand for all relevant channels
         """
-        if 't' in parameters:
-            # a parameter that merely happens to be called like the time variable (an enclosing loop index or a parameter of
-            # the inner template) is not the time: as in FunctionPulseTemplate.build_waveform it is hidden from the scalar
-            # operand, where 't' always denotes the time
-            parameters = {name: value for name, value in parameters.items() if name != 't'}
-
+        # a parameter that merely happens to be called like the time variable (an enclosing loop index or a parameter of
+        # the inner template) is not the time: _evaluate_to_time_dependent hides it from the scalar operand, where 't'
+        # always denotes the time. It is not removed here because copying the scope evaluates every parameter, also
+        # when no scalar is evaluated at all (all channels of the mapping dropped) and a parameter is missing.
         def _evaluate(value: ExpressionScalar):
             return value._evaluate_to_time_dependent(parameters)
 
